@@ -729,7 +729,30 @@ impl HashColumn {
 		let reindex = self.reindex.upgradable_read();
 		let existing = Self::search_all_indexes(change.key(), &tables, &reindex, log)?;
 		if let Some((table, sub_index, existing_address)) = existing {
-			self.write_plan_existing(&tables, change, log, table, sub_index, existing_address)
+			let (mut outcome, moved_to) = self.write_plan_existing(
+				&tables,
+				change,
+				log,
+				table,
+				sub_index,
+				existing_address,
+			)?;
+			if let (PlanOutcome::NeedReindex, Some(address)) = (&outcome, moved_to) {
+				// The value moved to a new address but the current index has no room for the
+				// new entry. Grow the index until it fits, as for a new key.
+				let (mut tables, mut reindex) = (tables, reindex);
+				loop {
+					(tables, reindex) = Self::trigger_reindex(tables, reindex, self.path.as_path());
+					if let PlanOutcome::NeedReindex =
+						tables.index.write_insert_plan(change.key(), address, None, log)?
+					{
+						continue
+					}
+					break
+				}
+				outcome = PlanOutcome::NeedReindex;
+			}
+			Ok(outcome)
 		} else {
 			match change {
 				Operation::Set(key, value) => {
@@ -768,7 +791,7 @@ impl HashColumn {
 		index: &IndexTable,
 		sub_index: usize,
 		existing_address: Address,
-	) -> Result<PlanOutcome> {
+	) -> Result<(PlanOutcome, Option<Address>)> {
 		let stats = if self.collect_stats { Some(&self.stats) } else { None };
 
 		let key = change.key();
@@ -782,17 +805,20 @@ impl HashColumn {
 			stats,
 			self.ref_counted,
 		)? {
-			(Some(outcome), _) => Ok(outcome),
+			(Some(outcome), _) => Ok((outcome, None)),
 			(None, Some(value_address)) => {
 				// If it was found in an older index we just insert a new entry. Reindex won't
 				// overwrite it.
 				let sub_index = if index.id == tables.index.id { Some(sub_index) } else { None };
-				tables.index.write_insert_plan(key, value_address, sub_index, log)
+				// On `NeedReindex` the entry was not written: the caller has to grow the index
+				// and insert `value_address` there.
+				let outcome = tables.index.write_insert_plan(key, value_address, sub_index, log)?;
+				Ok((outcome, Some(value_address)))
 			},
 			(None, None) => {
 				log::trace!(target: "parity-db", "{}: Removing from index {}", tables.index.id, hex(key));
 				index.write_remove_plan(key, sub_index, log)?;
-				Ok(PlanOutcome::Written)
+				Ok((PlanOutcome::Written, None))
 			},
 		}
 	}
